@@ -83,6 +83,8 @@ pub struct CallOut<S> {
     pub snap: Snap,
     pub ticks: u64,
     pub wall_ns: u128,
+    /// when the last sampler call of this API call returned, in ms after the API call began (None: no sample drawn)
+    pub last_sample_ms: Option<f64>,
     pub path: Option<Vec<S>>,
     pub tree_states: Vec<S>,
     pub gtree_states: Vec<S>,
@@ -186,6 +188,7 @@ where
             l.n_interp_queries = 0;
         });
         oxmpl::verif::reset_ticks();
+        let call_start_ns = log::with(|l| l.now_ns());
         let t0 = std::time::Instant::now();
         let r = catch_unwind(AssertUnwindSafe(|| -> Result<Option<Vec<S>>, PlanningError> {
             match call {
@@ -228,6 +231,9 @@ where
         }));
         oxmpl::verif::set_budget(None);
         let wall_ns = t0.elapsed().as_nanos();
+        let last_sample_ms = log::with(|l| {
+            l.events.iter().rev().take_while(|e| e.call == ci).map(|e| e.at_ns).max().map(|t| t.saturating_sub(call_start_ns) as f64 / 1e6)
+        });
         let ticks = oxmpl::verif::ticks();
         let mut path_states = None;
         let resp = match r {
@@ -280,6 +286,7 @@ where
             snap,
             ticks,
             wall_ns,
+            last_sample_ms,
             path: path_states,
             tree_states: ts,
             gtree_states: gs,
